@@ -38,9 +38,9 @@ pub enum OpKind {
     Next,
     NextV,
     /// n, k (None = all)
-    Chunk(usize, Option<usize>),
+    Chunk(usize, Take),
     BufNew(usize),
-    BufNext(Option<usize>),
+    BufNext(Take),
     BufDrop,
     ForEach(usize, Option<u64>),
     EnumForEach(usize, Option<u64>),
@@ -90,6 +90,24 @@ fn num<T: std::str::FromStr>(s: &str, what: &str, ln: usize) -> Result<T, String
     }
     s.parse::<T>()
         .map_err(|_| format!("line {ln}: number '{s}' out of range for {what}"))
+}
+
+/// How the caller consumes a chunk: everything, the first `k` through `next()`, or one `nth(k)`.
+#[derive(Clone, Copy, Debug, PartialEq, Eq)]
+pub enum Take {
+    All,
+    First(usize),
+    Nth(usize),
+}
+
+fn take_of(s: &str, what: &str, ln: usize) -> Result<Take, String> {
+    if s == "all" {
+        Ok(Take::All)
+    } else if let Some(k) = s.strip_prefix("nth:") {
+        num::<usize>(k, what, ln).map(Take::Nth)
+    } else {
+        num::<usize>(s, what, ln).map(Take::First)
+    }
 }
 
 fn num_or_all(s: &str, what: &str, ln: usize) -> Result<Option<usize>, String> {
@@ -227,7 +245,7 @@ fn parse_op(text: &str, ln: usize) -> Result<Op, String> {
         }
         "chunk" => {
             argc(2)?;
-            OpKind::Chunk(num(toks[1], "n", ln)?, num_or_all(toks[2], "k", ln)?)
+            OpKind::Chunk(num(toks[1], "n", ln)?, take_of(toks[2], "k", ln)?)
         }
         "bufnew" => {
             argc(1)?;
@@ -235,7 +253,7 @@ fn parse_op(text: &str, ln: usize) -> Result<Op, String> {
         }
         "bufnext" => {
             argc(1)?;
-            OpKind::BufNext(num_or_all(toks[1], "k", ln)?)
+            OpKind::BufNext(take_of(toks[1], "k", ln)?)
         }
         "bufdrop" => {
             argc(0)?;
